@@ -325,3 +325,37 @@ Example dishonest_link_shows_inode_metadata :
   /\ nth_error (ds_notifs r) 3 = Some (KAdd, [100], Some (mk [100] 384 7 0 3 9 pc 0 0, []))
   /\ ds_reqs r = [pa; pc].
 Proof. cbv zeta. split; [apply links_ok_b_sound; vm_compute; reflexivity|]. vm_compute. repeat split; reflexivity. Qed.
+
+(* ---- source equivalence (tools/go2coq; gen/SrcFns.v is regenerated from /repo on every run): the
+        Gallina definition translated from diff_containerd.go's compareStat (field accesses mapped to
+        Model/Stat.v's record) equals the model compare_stat and never returns an error ---- *)
+From FSGen Require SrcFns.
+From FS Require Proofs.Src.CompareStatEq.
+Theorem compareStat_src_eq :
+  forall a b, SrcFns.compareStat a b = (compare_stat a b, None).
+Proof. exact CompareStatEq.compareStat_src_eq. Qed.
+Print Assumptions compareStat_src_eq.
+
+(* sameFile itself (named results, the iota constants DiffMetadata = 0 / DiffNone = 1 of receive.go, the
+   struct currentPath, the method Stat.IsDir of types/stat.go — all read from the source on this run;
+   compareFileContent, which reads the files, is a parameter): equal to the model same_file for both
+   differs the model covers, whatever compareFileContent does; for any other differ value (DiffContent)
+   it is the metadata comparison followed, only when that says "same", by compareFileContent. *)
+From FS Require Proofs.Src.SameFileEq Proofs.Src.StatIsDirEq.
+Theorem sameFile_src_eq :
+  forall cmp f1 f2 d,
+    SrcFns.sameFile cmp f1 f2 (match d with DMetadata => BinNums.Z0 | DNone => BinNums.Zpos BinNums.xH end) =
+    (same_file d (SrcFns.currentPath_stat f1) (SrcFns.currentPath_stat f2), None).
+Proof. exact SameFileEq.sameFile_src_eq. Qed.
+Theorem sameFile_content_src_eq :
+  forall cmp f1 f2 z, z <> BinNums.Z0 -> z <> BinNums.Zpos BinNums.xH ->
+    SrcFns.sameFile cmp f1 f2 z =
+    if same_file DMetadata (SrcFns.currentPath_stat f1) (SrcFns.currentPath_stat f2)
+    then cmp (SrcFns.currentPath_path f1) (SrcFns.currentPath_path f2)
+    else (false, None).
+Proof. exact SameFileEq.sameFile_content_src_eq. Qed.
+Theorem Stat_IsDir_src_eq : forall s, SrcFns.Stat_IsDir s = st_is_dir s.
+Proof. exact StatIsDirEq.Stat_IsDir_src_eq. Qed.
+Print Assumptions sameFile_src_eq.
+Print Assumptions sameFile_content_src_eq.
+Print Assumptions Stat_IsDir_src_eq.
